@@ -526,6 +526,12 @@ impl Estimator {
         let delta_t_start = duration_to_secs(now - self.start_time);
         let total_weight = 1.0 - estimator_weight(delta_t_start);
 
+        // At the very instant of the last reset (possibly an implicit one, caused by a backwards
+        // seek) there is no data yet and the normalization would divide zero by zero.
+        if total_weight == 0.0 {
+            return 0.0;
+        }
+
         // Generate updated values for `smoothed_steps_per_sec` and `double_smoothed_steps_per_sec`
         // (sps and dsps) without storing them. Note that we normalize sps when using it as a
         // source to update dsps, and then normalize dsps itself before returning it.
